@@ -164,6 +164,69 @@ def standin(rep: Report):
     si.samples = cases[:3]
     si.seconds = time.time() - t0
     rep.standins.append(si)
+    # file mode: the hand-written invalid programs written one after the other to ONE path and parsed from there (a script edited and parsed
+    # again): the reported text must be the line of the file AS IT IS NOW
+    t1 = time.time()
+    import json as _json
+    import subprocess
+    from checks.common import REPO, VENV_PY, VERIF
+    inv = [p0 for p0 in progs[len(pool.PY_STMTS) + len(pool.XSH_STMTS):] if "\r" not in p0 and "\x0c" not in p0][:120]
+    sf = StandIn("file-mode-errors-one-path", f"{len(inv)} invalid programs written in turn to the same path and parsed with parse_file in one process; "
+                 "`text` of each error must begin with the reported line of the CURRENT content")
+    env = dict(os.environ)
+    env["PYTHONPATH"] = REPO
+    pr = subprocess.run([VENV_PY, os.path.join(VERIF, "harness", "file_vs_string.py")], input=_json.dumps({"contents": inv, "same_path": True}), capture_output=True, text=True,
+                        env=env, timeout=1200, cwd="/")
+    if pr.returncode != 0:
+        rep.undecided("C11.standin.file-mode", "bounded", "run the file-mode stand-in", "cpython-exec", pr.stderr[-600:])
+    else:
+        dd = _json.loads([ln for ln in pr.stdout.splitlines() if ln.startswith("{")][-1])
+        for c, r in zip(inv, dd["results"]):
+            sf.evaluations += 1
+            e = r["file"]
+            if e.get("ok") or e.get("exc") not in ("SyntaxError", "IndentationError") or e.get("lineno") is None:
+                continue
+            sf.distinct_nontrivial += 1
+            lines = io.StringIO(c).readlines()
+            line = lines[e["lineno"] - 1] if 1 <= e["lineno"] <= len(lines) else ""
+            txt = e.get("text")
+            sm = r["string"]
+            if txt is None or (not txt.startswith(line.rstrip("\n")) and not line.startswith(txt.rstrip("\n"))):
+                if sm.get("text") == txt:
+                    continue            # the same text is reported for string input: judged (and, where known, recorded) by the string-mode stand-in above
+                sf.failures.append({"input": c, "site": "error:file-mode-text", "what": f"parse_file reports text {txt!r}, line {e['lineno']} of the file is {line!r}",
+                                    "observed": {"file": e, "string": sm}})
+    sf.seconds = time.time() - t1
+    rep.standins.append(sf)
+
+
+def lines_obligation(rep: Report):
+    """Tokenizer.get_lines reads the file it is given at the moment of the error: the builtin open(self._path, encoding=...) and nothing that
+    remembers earlier contents of the path (linecache, functools caches, module-level dicts)"""
+    rel = "peg_parser/tokenizer.py"
+    from checks.common import REPO
+    try:
+        tree = ast.parse(open(os.path.join(REPO, rel), encoding="utf-8").read())
+    except (OSError, SyntaxError) as e:
+        rep.undecided("C11.lines.fresh_read", "ambient", f"parse {rel}", "frames", repr(e))
+        return
+    fn = next((m for c in ast.walk(tree) if isinstance(c, ast.ClassDef) and c.name == "Tokenizer" for m in c.body
+               if isinstance(m, ast.FunctionDef) and m.name == "get_lines"), None)
+    desc = "Tokenizer.get_lines (file input) reads the lines from the file as it is now: builtin open(self._path, ...) inside the function, no linecache / memoised reader"
+    if fn is None:
+        rep.undecided("C11.lines.fresh_read", "ambient", desc, "frames", "Tokenizer.get_lines not found")
+        return
+    calls = [n for n in ast.walk(fn) if isinstance(n, ast.Call)]
+    opens = [n for n in calls if isinstance(n.func, ast.Name) and n.func.id == "open"]
+    foreign = [ast.unparse(n)[:70] for n in calls if isinstance(n.func, ast.Attribute) and isinstance(n.func.value, ast.Name)
+               and n.func.value.id in ("linecache", "functools", "tokenize", "io", "codecs", "os", "pathlib")]
+    deco = [ast.unparse(d) for d in fn.decorator_list]
+    ok = len(opens) == 1 and opens[0].args and ast.unparse(opens[0].args[0]) == "self._path" and not foreign and not deco
+    if ok:
+        rep.ok("C11.lines.fresh_read", "ambient", desc, "frames", function=f"{rel}:Tokenizer.get_lines")
+    else:
+        rep.fail("C11.lines.fresh_read", "ambient", desc, "frames", f"open() calls: {[ast.unparse(o)[:60] for o in opens]}; other readers: {foreign}; decorators: {deco}",
+                 witness={"opens": [ast.unparse(o) for o in opens], "foreign": foreign, "decorators": deco}, function=f"{rel}:Tokenizer.get_lines")
 
 
 def run(rep: Report):
@@ -175,4 +238,5 @@ def run(rep: Report):
     e1common.file_into(rep, "C11", rep.tier)
     raise_sites(rep)
     helper_call_sites(rep)
+    lines_obligation(rep)
     standin(rep)
